@@ -140,7 +140,7 @@ var subcommands = map[string]func(cfg Config, in io.Reader, extra string, worker
 func NewRunner(cfg Config) *Runner {
 	return &Runner{cfg: cfg, sy: NewSymb(), seen: map[uint64]struct{}{}, repN: map[string]int{},
 		kfHit: map[string]bool{},
-		sum: Summary{Known: map[string]int{}, ByProp: map[string]int{}, Skipped: map[string]int{},
+		sum: Summary{Samples: []any{}, Known: map[string]int{}, ByProp: map[string]int{}, Skipped: map[string]int{},
 			FirstViolRep: map[string]string{}, Extra: map[string]int{}}}
 }
 
@@ -239,7 +239,7 @@ func (r *Runner) account(l *Line, res lineResult) {
 			r.sum.Distinct++
 		}
 	}
-	if len(r.sum.Samples) < 3 && res.nontrivial && len(l.Hist) >= 2 {
+	if len(r.sum.Samples) < 3 && res.nontrivial && (len(l.Hist) >= 2 || l.Fam == "ops") {
 		r.sum.Samples = append(r.sum.Samples, sampleOf(l))
 	}
 	// one violation per (line, property): the first discrepancy
@@ -270,17 +270,30 @@ func (r *Runner) account(l *Line, res lineResult) {
 
 func sampleOf(l *Line) any {
 	type mini struct {
-		A string `json:"a"`
-		D []int  `json:"d,omitempty"`
-		K int    `json:"k,omitempty"`
-		S []int  `json:"s,omitempty"`
+		A   string `json:"a"`
+		D   []int  `json:"d,omitempty"`
+		K   int    `json:"k,omitempty"`
+		S   []int  `json:"s,omitempty"`
+		W   []int  `json:"w,omitempty"`
+		As  []int  `json:"as,omitempty"`
+		B   []int  `json:"b,omitempty"`
+		Rem []int  `json:"rem,omitempty"`
+		N   uint64 `json:"n,omitempty"`
 	}
-	var hist []mini
-	for _, s := range l.Hist {
-		hist = append(hist, mini{s.A, s.D, s.K, s.S})
+	mk := func(s *Step) mini { return mini{s.A, s.D, s.K, s.S, s.W, s.As, s.Bs, s.Rem, s.N} }
+	hist := []mini{}
+	for i := range l.Hist {
+		hist = append(hist, mk(&l.Hist[i]))
 	}
-	return map[string]any{"fam": l.Fam, "hist": hist, "step": mini{l.Step.A, l.Step.D, l.Step.K, l.Step.S},
-		"expect_n": l.Expect.N, "expect_roots": l.Expect.Roots}
+	out := map[string]any{"fam": l.Fam, "hist": hist, "step": mk(&l.Step)}
+	if len(l.Expect.Roots) > 0 {
+		out["expect_n"] = l.Expect.N
+		out["expect_roots"] = l.Expect.Roots
+	}
+	if l.Expect.Pf != nil {
+		out["expect_proof"] = l.Expect.Pf
+	}
+	return out
 }
 
 func mustJSON(v any) string {
